@@ -131,6 +131,28 @@ def build(repo):
   return T
 
 
+def extra_obligations(repo):
+  """The closure lemmas: checked by Lean on every run (no sorry/axiom allowed)."""
+  import os, re, subprocess, time
+  from engine.core import Obligation
+  lean_file = os.path.join(os.path.dirname(os.path.dirname(os.path.abspath(__file__))), 'lean', 'Closure.lean')
+  txt = open(lean_file).read()
+  t0 = time.time()
+  p = subprocess.run(['lean', lean_file], capture_output=True, text=True, timeout=600)
+  ok = p.returncode == 0 and 'error' not in p.stdout and not re.search(r'\b(sorry|axiom|admit)\b', txt)
+  out = []
+  for name in re.findall(r'^theorem (\w+)', txt, re.M):
+    o = Obligation('C09/lean/Closure.lean::%s/lemma#1' % name, 'lemma', [], z3.BoolVal(True),
+                   detail='Lean 4 + Mathlib theorem (closure invariant step); whole file: %s' % ('accepted' if ok else (p.stdout + p.stderr)[-400:]))
+    o.owner = 'lean/Closure.lean'
+    o.status = 'proved' if ok else 'unknown'
+    o.backend = 'lean-4.33.0+mathlib'
+    o.seconds = (time.time() - t0)
+    o.prechecked = True
+    out.append(o)
+  return out
+
+
 SURROUND = ['cfg.cc wrappers (CPython C-API glue) for is_reachable/ConnectTo/NewCFGNode',
             'typegraph.cc Program::NewCFGNode / CFGNode::ConnectTo / Program::is_reachable (next step)',
             'Variable::Prune, CanHaveCombination as users of reachability']
